@@ -46,16 +46,74 @@ def oracle_unfulfilled_fails(rep, prop, case, chain):
 ORACLES.append(oracle_unfulfilled_fails)
 
 
+def carried_case(rng):
+    """A forward reference captured in a variable and used by a row of a LATER iteration: the captured
+    slot must keep the id its target received (the follower is skipped in the first iteration)."""
+    v3 = rng.random() < 0.5
+    lines = [f"- snowfakery_version: {3 if v3 else 2}", "- object: M"]
+    lines += ["- object: F", "  count: ${{ 0 if M.id == 1 else %d }}" % rng.randint(1, 2), "  fields:"]
+    if v3 and rng.random() < 0.5:
+        lines += ["    p: ${{prev}}"]
+    else:
+        lines += ["    p:", "      reference: prev"]
+    if rng.random() < 0.5:
+        lines += ["- object: X", "  count: %d" % rng.randint(0, 2)]
+    lines += ["- var: prev", "  value:", "    reference: %s" % rng.choice(["T", "T", "tn"])]
+    lines += ["- object: T", "  nickname: tn"]
+    if rng.random() < 0.4:
+        lines += ["  count: %d" % rng.randint(1, 2)]
+    k = rng.randint(2, 4)
+    return {"recipe": "\n".join(lines) + "\n", "parts": [k], "kind": "carried"}
+
+
+def run_carried(ctx, rep, n):
+    from . import common
+
+    for _ in range(n):
+        case = carried_case(ctx.rng)
+        chain = l1.run_chain(case["recipe"], case["parts"], trace=False, final_continuation=False)
+        rep.count("carried:" + chain.outcome.split(":")[0])
+        rep.case({"recipe": case["recipe"], "parts": case["parts"]}, nontrivial=chain.outcome == "ok")
+        if chain.outcome != "ok":
+            continue
+        seen = {(t, dict(f).get("id")) for t, f in chain.rows}
+        for t, fields in chain.rows:
+            for kf, v in fields:
+                if isinstance(v, dict) and v.get("t") == "ref" and not v["table"].startswith("__"):
+                    if not isinstance(v["id"], int) or (v["table"], v["id"]) not in seen:
+                        rep.violation("C02:dangling-ref",
+                                      f"{t}.{kf} references {v['table']}({v['id']}) which is never emitted", case,
+                                      "a row of the dataset", v)
+                        break
+
+
 def run(ctx, rep, findings):
     rep.rule = ("as C01, biased to references (every order of referencing vs creating: backward, forward, self, cyclic, "
                 "by nickname, by table name, both slots reserved); reference cells of captured rows checked per "
                 "iteration against the rows emitted so far. Non-trivial: completed, >= 3 rows, uses reference/nested/friends.")
     l1cases.run_l1(ctx, rep, "C02", GEN, ORACLES, findings, 1200, 12000, FIXED)
+    run_carried(ctx, rep, ctx.scale(120, 1500))
 
 
 def replay(case, rep):
+    if case.get("kind") == "carried":
+        import random
+
+        class _C:  # minimal ctx stand-in
+            rng = random.Random(0)
+
+        chain = l1.run_chain(case["recipe"], case["parts"], trace=False, final_continuation=False)
+        seen = {(t, dict(f).get("id")) for t, f in chain.rows}
+        for t, fields in chain.rows:
+            for kf, v in fields:
+                if isinstance(v, dict) and v.get("t") == "ref" and not v["table"].startswith("__"):
+                    if not isinstance(v["id"], int) or (v["table"], v["id"]) not in seen:
+                        rep.violation("C02:dangling-ref", f"{t}.{kf} references {v['table']}({v['id']}) which is never emitted", case)
+        return
     l1cases.replay_l1(case, rep, "C02", ORACLES)
 
 
 def shrink(case, signature):
+    if case.get("kind") == "carried":
+        return case
     return l1cases.shrink_recipe(case, signature, "C02", ORACLES)
